@@ -88,7 +88,8 @@ def add_bulk_protocol(pkg, rng):
     elem = rng.choice(sorted(BULK_ELEM))
     kind = rng.choice(["vector", "array", "array", "string", "string"])
     t = {"vector": M.Vec(M.Prim(elem)), "array": M.Arr(M.Prim(elem), rng.choice([None, 1, 2])), "string": M.Prim("string")}[kind]
-    steps = [(sw.PAD_STEP, M.Prim("string"), False), ("frames", M.Prim("int32"), True), (BULK_STEP, t, False)]
+    # (before it a stream of fixed-size numbers, several to a block: readers may take whole blocks of those at once)
+    steps = [(sw.PAD_STEP, M.Prim("string"), False), ("frames", M.Prim(rng.choice(["int32", "float32", "float64", "complexfloat32", "float32", "float64"])), True), (BULK_STEP, t, False)]
     if rng.chance(0.5):
         steps.append(("tail", M.Prim("int32"), rng.chance(0.5)))
     fn = sorted(pkg.files)[0]
@@ -99,6 +100,10 @@ def override_bulk(proto, vals, rng, stats):
     if proto.name != BULK_PROTO:
         return
     i = [k for k, s in enumerate(proto.steps) if s[0] == BULK_STEP][0]
+    fi = [k for k, s in enumerate(proto.steps) if s[0] == "frames"]
+    if fi and proto.steps[fi[0]][1].name != "int32" and len(vals[fi[0]]) < 4:
+        ft = proto.steps[fi[0]][1].name
+        vals[fi[0]] = [((k + 0.5, -k - 0.25) if ft.startswith("complex") else k + 0.5) for k in range(rng.randint(4, 9))]
     t = proto.steps[i][1]
     nbytes = rng.choice([70 << 10, 140 << 10, rng.randint(132 << 10, 330 << 10), rng.randint(200 << 10, 330 << 10)])
     if isinstance(t, M.Prim):
@@ -136,8 +141,11 @@ def check_binary(model, proto, rng, quick, stats, viols, seedinfo):
     stats["streams"] = stats.get("streams", 0) + 1
     stats["streams_gt_64k"] = stats.get("streams_gt_64k", 0) + (1 if len(data) > sw.BUF else 0)
     # positive control: the complete stream is accepted and delivers exactly the values
-    with runner.time_limit(20):
-        d, err, closed = P.read_all(model, proto, "binary", io.BytesIO(data))
+    try:
+        with runner.time_limit(20):
+            d, err, closed = P.read_all(model, proto, "binary", io.BytesIO(data))
+    except runner.Hang as e:
+        d, err, closed = [], e, False       # (a reader that hangs on the intact stream: C01's business, no baseline here)
     stats["runs"] = stats.get("runs", 0) + 1
     if err is not None or not closed or sw.flat_equal(env, ns, proto, flat, d):
         # a reader that cannot read the intact stream is C01's business; C16 needs a baseline
@@ -262,8 +270,11 @@ def check_ndjson(model, proto, rng, quick, stats, viols, seedinfo):
     text = codec.encode_ndjson(proto, ns, schema, vals)
     raw = text.encode("utf-8")
     flat = sw.flat_values(proto, vals)
-    with runner.time_limit(20):
-        d, err, closed = P.read_all(model, proto, "ndjson", io.StringIO(text))
+    try:
+        with runner.time_limit(20):
+            d, err, closed = P.read_all(model, proto, "ndjson", io.StringIO(text))
+    except runner.Hang as e:
+        d, err, closed = [], e, False
     stats["runs"] = stats.get("runs", 0) + 1
     if err is not None or sw.flat_equal(env, ns, proto, flat, d, True):
         stats["baseline_unreadable(skipped)"] = stats.get("baseline_unreadable(skipped)", 0) + 1
